@@ -264,12 +264,7 @@ pub fn parse_file_internal(context: &ParseContext) -> Result<(), Error> {
         ),
     };
 
-    let mut include_paths = include_paths.clone();
-    if let Some(parent) = current_path.parent() {
-        if let None = include_paths.get(parent) {
-            include_paths.insert(parent.to_path_buf());
-        }
-    }
+    let include_paths = include_paths.clone();
 
     let mut source = String::new();
     if let Err(err) = file.read_to_string(&mut source) {
